@@ -1054,3 +1054,198 @@ def _flag_loops_to_for_else(stmts, fn):
         out.append(st)
         i += 1
     return out
+
+
+# ---------------------------------------------------------------- statement-level respellings (new constructs only)
+
+def _sig(node, names):
+    return _comp_signature(node, names)
+
+
+def construct_signatures(fn):
+    """kind -> sorted signatures of the statement-level constructs the respelling pass knows, for the reference"""
+    names = {n.id for n in ast.walk(fn) if isinstance(n, ast.Name) and isinstance(n.ctx, ast.Store)}
+    out = {"ifexp": [], "tupleassign": [], "unpack1": [], "chained": [], "nameloop": [], "while": []}
+    for n in _own_nodes(fn):
+        if isinstance(n, ast.Assign):
+            if isinstance(n.value, ast.IfExp):
+                out["ifexp"].append(_sig(n, names))
+            if len(n.targets) == 1 and isinstance(n.targets[0], (ast.Tuple, ast.List)):
+                if len(n.targets[0].elts) == 1:
+                    out["unpack1"].append(_sig(n, names))
+                elif isinstance(n.value, (ast.Tuple, ast.List)) and len(n.value.elts) == len(n.targets[0].elts):
+                    out["tupleassign"].append(_sig(n, names))
+            if len(n.targets) > 1:
+                out["chained"].append(_sig(n, names))
+        elif isinstance(n, ast.For) and isinstance(n.iter, (ast.Tuple, ast.List)) and n.iter.elts and all(isinstance(e, ast.Constant) and isinstance(e.value, str) for e in n.iter.elts):
+            out["nameloop"].append(_sig(n, names))
+        elif isinstance(n, ast.While):
+            out["while"].append(_sig(n.test, names))
+    return {k: sorted(v) for k, v in out.items() if v}
+
+
+def respell_new_constructs(tree, modname, reference, qualnames_fn):
+    """statement-level clean-ups undone when the reference function does not have them:
+      x = a if c else b                  ->  if c: x = a / else: x = b
+      a, b = e1, e2   (independent)      ->  a = e1; b = e2
+      (x,) = e                           ->  x = e[0]
+      self.f = v = e  /  v = self.f = e  ->  self.f = e, later reads of the new local v become self.f
+      for n in ("a", "b"): setattr(o, n, ..getattr(p, n)..)   ->  o.a = ..p.a..; o.b = ..p.b..
+      i = s; while i > b: ...; i -= 1    ->  for i in range(s, b, -1): ...
+    """
+    ref = (reference or {}).get(modname) or {}
+    known_fns = set(ref.get("__functions__", []))
+    cons = ref.get("__constructs__", {})
+    if not known_fns:
+        return 0
+    count = 0
+    for q, fn in qualnames_fn(tree):
+        if q not in known_fns:
+            continue
+        have = {k: list(v) for k, v in cons.get(q, {}).items()}
+        cur = construct_signatures(fn)
+        if all(len(cur.get(k, [])) <= len(have.get(k, [])) for k in cur):
+            continue
+        names = {n.id for n in ast.walk(fn) if isinstance(n, ast.Name) and isinstance(n.ctx, ast.Store)}
+        known_locals = {b[0] for b in ref.get(q, [])}
+
+        def is_new(kind, node):
+            s_ = _sig(node, names)
+            lst = have.get(kind, [])
+            if s_ in lst:
+                lst.remove(s_)
+                return False
+            return True
+        aliases = {}
+
+        def block(stmts):
+            nonlocal count
+            out = []
+            i = 0
+            while i < len(stmts):
+                st = stmts[i]
+                for fld in ("body", "orelse", "finalbody"):
+                    blk = getattr(st, fld, None)
+                    if isinstance(blk, list) and blk and isinstance(blk[0], ast.stmt) and not isinstance(st, _SCOPES):
+                        setattr(st, fld, block(blk))
+                for h_ in getattr(st, "handlers", []) or []:
+                    h_.body = block(h_.body)
+                new = None
+                if isinstance(st, ast.Assign):
+                    tg = st.targets
+                    if isinstance(st.value, ast.IfExp) and len(tg) == 1 and is_new("ifexp", st):
+                        new = [ast.If(test=st.value.test, body=[ast.Assign(targets=[copy.deepcopy(tg[0])], value=st.value.body)],
+                                      orelse=[ast.Assign(targets=[copy.deepcopy(tg[0])], value=st.value.orelse)])]
+                    elif len(tg) == 1 and isinstance(tg[0], (ast.Tuple, ast.List)) and len(tg[0].elts) == 1 and is_new("unpack1", st):
+                        new = [ast.Assign(targets=[tg[0].elts[0]], value=ast.Subscript(value=st.value, slice=ast.Constant(value=0), ctx=ast.Load()))]
+                    elif len(tg) == 1 and isinstance(tg[0], (ast.Tuple, ast.List)) and isinstance(st.value, (ast.Tuple, ast.List)) and len(tg[0].elts) == len(st.value.elts) \
+                            and len(tg[0].elts) > 1 and is_new("tupleassign", st):
+                        # sequential only if no right-hand side reads a target assigned before it
+                        ok = True
+                        done_t = set()
+                        for te, ve in zip(tg[0].elts, st.value.elts):
+                            if {_text(x) for x in ast.walk(ve) if isinstance(x, (ast.Name, ast.Attribute))} & done_t:
+                                ok = False
+                            done_t.add(_text(te))
+                        if ok:
+                            new = [ast.Assign(targets=[te], value=ve) for te, ve in zip(tg[0].elts, st.value.elts)]
+                    elif len(tg) == 2 and is_new("chained", st):
+                        attr = [t for t in tg if isinstance(t, ast.Attribute) and _is_simple_arg(t)]
+                        loc = [t for t in tg if isinstance(t, ast.Name) and t.id not in known_locals]
+                        if len(attr) == 1 and len(loc) == 1:
+                            stores = [n for n in ast.walk(fn) if isinstance(n, ast.Name) and n.id == loc[0].id and isinstance(n.ctx, (ast.Store, ast.Del))]
+                            attr_stores = [n for n in ast.walk(fn) if isinstance(n, ast.Attribute) and isinstance(n.ctx, (ast.Store, ast.Del)) and _text(n) == _text(attr[0])]
+                            if len(stores) == 1 and len(attr_stores) == 1:
+                                aliases[loc[0].id] = attr[0]
+                                new = [ast.Assign(targets=[attr[0]], value=st.value)]
+                        elif len(loc) == 0 and len(attr) == 0:
+                            pass
+                        if new is None and all(isinstance(t, (ast.Name, ast.Attribute, ast.Subscript)) for t in tg):
+                            # a = b = e  ->  b = e; a = b   (python assigns left to right from one evaluation of e)
+                            simple = [t for t in tg if _is_simple_arg(t)]
+                            if len(simple) >= 1:
+                                first = simple[-1]
+                                rest = [t for t in tg if t is not first]
+                                src = copy.deepcopy(first)
+                                src.ctx = ast.Load()
+                                new = [ast.Assign(targets=[first], value=st.value)] + [ast.Assign(targets=[t], value=copy.deepcopy(src)) for t in rest]
+                elif isinstance(st, ast.For) and isinstance(st.iter, (ast.Tuple, ast.List)) and st.iter.elts and isinstance(st.target, ast.Name) and not st.orelse \
+                        and all(isinstance(e, ast.Constant) and isinstance(e.value, str) and e.value.isidentifier() for e in st.iter.elts) and is_new("nameloop", st):
+                    # the loop variable may only appear as the name argument of setattr / getattr
+                    v = st.target.id
+                    uses = [n for n in ast.walk(st) if isinstance(n, ast.Name) and n.id == v and isinstance(n.ctx, ast.Load)]
+                    okuse = True
+                    for u in uses:
+                        par = None
+                        for n in ast.walk(st):
+                            if isinstance(n, ast.Call) and isinstance(n.func, ast.Name) and n.func.id in ("setattr", "getattr") and len(n.args) >= 2 and n.args[1] is u:
+                                par = n
+                        if par is None:
+                            okuse = False
+                    if okuse and uses:
+                        new = []
+                        for e in st.iter.elts:
+                            for bst in st.body:
+                                c_ = copy.deepcopy(bst)
+
+                                class R(ast.NodeTransformer):
+                                    def visit_Call(self, node):
+                                        self.generic_visit(node)
+                                        if isinstance(node.func, ast.Name) and node.func.id == "getattr" and len(node.args) == 2 and isinstance(node.args[1], ast.Name) and node.args[1].id == v:
+                                            return ast.Attribute(value=node.args[0], attr=e.value, ctx=ast.Load())
+                                        return node
+                                c_ = R().visit(c_)
+                                if isinstance(c_, ast.Expr) and isinstance(c_.value, ast.Call) and isinstance(c_.value.func, ast.Name) and c_.value.func.id == "setattr" \
+                                        and len(c_.value.args) == 3 and isinstance(c_.value.args[1], ast.Name) and c_.value.args[1].id == v:
+                                    c_ = ast.Assign(targets=[ast.Attribute(value=c_.value.args[0], attr=e.value, ctx=ast.Store())], value=c_.value.args[2])
+                                new.append(c_)
+                elif isinstance(st, ast.While) and not st.orelse and out and is_new("while", st.test):
+                    # counting loop:  i = START  ;  while i > BOUND: body ; i -= STEP      (no continue, i not assigned elsewhere in the body)
+                    t = st.test
+                    prev = out[-1]
+                    if isinstance(t, ast.Compare) and len(t.ops) == 1 and isinstance(t.left, ast.Name) and isinstance(prev, ast.Assign) and len(prev.targets) == 1 \
+                            and isinstance(prev.targets[0], ast.Name) and prev.targets[0].id == t.left.id and st.body and isinstance(st.body[-1], ast.AugAssign) \
+                            and isinstance(st.body[-1].target, ast.Name) and st.body[-1].target.id == t.left.id and isinstance(st.body[-1].value, ast.Constant) \
+                            and isinstance(st.body[-1].op, (ast.Add, ast.Sub)) and not any(isinstance(x, ast.Continue) for b_ in st.body for x in ast.walk(b_)):
+                        iv = t.left.id
+                        others = [n for b_ in st.body[:-1] for n in ast.walk(b_) if isinstance(n, ast.Name) and n.id == iv and isinstance(n.ctx, (ast.Store, ast.Del))]
+                        step = st.body[-1].value.value * (1 if isinstance(st.body[-1].op, ast.Add) else -1)
+                        bound = t.comparators[0]
+                        stop = None
+                        if step < 0 and isinstance(t.ops[0], ast.Gt):
+                            stop = bound
+                        elif step < 0 and isinstance(t.ops[0], ast.GtE):
+                            stop = ast.BinOp(left=bound, op=ast.Sub(), right=ast.Constant(value=1))
+                        elif step > 0 and isinstance(t.ops[0], ast.Lt):
+                            stop = bound
+                        elif step > 0 and isinstance(t.ops[0], ast.LtE):
+                            stop = ast.BinOp(left=bound, op=ast.Add(), right=ast.Constant(value=1))
+                        later_use = any(isinstance(n, ast.Name) and n.id == iv and isinstance(n.ctx, ast.Load) for s2 in stmts[i + 1:] for n in ast.walk(s2))
+                        if not others and stop is not None and not later_use:
+                            out.pop()
+                            new = [ast.For(target=ast.Name(id=iv, ctx=ast.Store()), iter=ast.Call(func=ast.Name(id="range", ctx=ast.Load()),
+                                           args=[prev.value, stop, ast.Constant(value=step)], keywords=[]), body=st.body[:-1] or [ast.Pass()], orelse=[], type_comment=None)]
+                if new is not None:
+                    for x in new:
+                        ast.copy_location(x, st)
+                        ast.fix_missing_locations(x)
+                    _relocate(new, getattr(st, "lineno", 0), 0)
+                    out.extend(new)
+                    count += 1
+                else:
+                    out.append(st)
+                i += 1
+            return out
+        fn.body = block(fn.body)
+        if aliases:
+            class A(ast.NodeTransformer):
+                def visit_Name(self, node):
+                    if isinstance(node.ctx, ast.Load) and node.id in aliases:
+                        new = copy.deepcopy(aliases[node.id])
+                        new.ctx = ast.Load()
+                        return ast.copy_location(new, node)
+                    return node
+            for st in fn.body:
+                A().visit(st)
+            ast.fix_missing_locations(fn)
+    return count
